@@ -121,7 +121,7 @@ func runC05(c *core.Ctx) {
 	case 4:
 		// obtained from Unmarshal of traffic (payload non-empty so that the decode is not the subject here)
 		spec := genPacketSpec(t, 40)
-		if spec.profile == profNone {
+		if spec.profile == profNone && t.Bool() {
 			spec.profile = profOneByte
 			spec.exts = []extEl{{3, []byte{1, 2, 3}}}
 		}
@@ -131,6 +131,20 @@ func runC05(c *core.Ctx) {
 		img := spec.encode()
 		var pk rtp.Packet
 		var err error
+		if t.Chance(1, 2) {
+			// the receiver was used before (read loops decode into one Packet): an earlier packet with other
+			// extensions, or with none, is part of this header's history
+			prev := genPacketSpec(t, 20)
+			pimg := prev.encode()
+			if c.Guard("rtp.Packet.Unmarshal", func() { _ = pk.Unmarshal(pimg) }) {
+				return
+			}
+			c.Probe("start-from-reused-receiver")
+			if t.Chance(1, 3) { // ... and the header of interest is the one WITHOUT extensions that follows
+				spec.profile, spec.exts = profNone, nil
+				img = spec.encode()
+			}
+		}
 		if c.Guard("rtp.Packet.Unmarshal", func() { err = pk.Unmarshal(img) }) || err != nil {
 			c.Ev("start-unmarshal-failed")
 			return
